@@ -28,6 +28,12 @@ func main() {
 	rep.Rule = "three streams per entry point: structured (valid outer layer: valid checksum / valid framing / valid JSON, degenerate inner content), mutation of valid samples, random bytes, plus fixed edge cases and size-doubling probes; " +
 		"a case is non-trivial when it is structured by construction or got past the outer validation layer (accepted, or rejected by an inner check); distinct by (entry point, input)"
 	cases = vh.NewCases(cfg, "Run.Run_C08", 400)
+	if cfg.Search {
+		// search pass (run when an obligation / the correspondence broke or the anchored sources changed):
+		// the thorough generators on a second, independent random stream; monitors only
+		cfg.Seed = cfg.Seed*2654435761 + 0x5ea4c4
+		rep.Seed = cfg.Seed
+	}
 	rng := vh.NewRNG(cfg.Seed)
 
 	go wd.run(func(entry string, replay interface{}, d time.Duration) {
@@ -46,9 +52,7 @@ func main() {
 	phase("strings", func() { runStrings(rng) })
 	phase("json", func() { runJSON(rng) })
 	phase("wire", func() { runWire(rng) })
-	if !cfg.Search || true {
-		phase("gcs", runGCS)
-	}
+	phase("gcs", runGCS)
 	phases["total"] = time.Since(t0).Milliseconds()
 	finish()
 	fmt.Printf("c08: %d implementation executions, %d correspondence cases, %d monitor violations\n", rep.Evaluations, rep.Cases, len(rep.Violations))
